@@ -21,11 +21,11 @@ theorem expand_refused_inert (a : Arr) (m : Mem) (hmax : ¬ a.AtLimit) (hr : m.a
   ⟨Arr.expandCapacity_refused a m hmax hr, (Mem.alloc_fst_false m hr).1, (Mem.alloc_fst_false m hr).2.1⟩
 
 /-- `cc_array_add` -/
-theorem add_atomic (a : Arr) (x : Nat) (m : Mem) (hinv : a.Inv) (hlive : 0 < m.live)
+theorem add_atomic (a : Arr) (x : Nat) (m : Mem) (hinv : a.Inv)
     (h : (a.add x m).1 ≠ .ok) :
     ((a.add x m).1 = .errAlloc ∨ (a.add x m).1 = .errMaxCapacity) ∧ (a.add x m).2.1 = a ∧
     (a.add x m).2.2.live = m.live ∧ (a.add x m).2.2.fault = m.fault := by
-  obtain ⟨sp, sl, sf⟩ := Arr.add_spec a x m hinv hlive
+  obtain ⟨sp, sl, sf⟩ := Arr.add_spec a x m hinv
   rcases sp with ⟨ok, _⟩ | ⟨hb, hsame⟩
   · exact absurd ok h
   · refine ⟨?_, hsame, sl, sf⟩
@@ -34,30 +34,30 @@ theorem add_atomic (a : Arr) (x : Nat) (m : Mem) (hinv : a.Inv) (hlive : 0 < m.l
     · exact Or.inr e
 
 /-- `cc_array_add_at` -/
-theorem addAt_atomic (a : Arr) (x i : Nat) (m : Mem) (hinv : a.Inv) (hlive : 0 < m.live)
+theorem addAt_atomic (a : Arr) (x i : Nat) (m : Mem) (hinv : a.Inv)
     (h : (a.addAt x i m).1 ≠ .ok) :
     (a.addAt x i m).2.1 = a ∧ (a.addAt x i m).2.2.live = m.live ∧ (a.addAt x i m).2.2.fault = m.fault := by
-  obtain ⟨sp, sl, sf⟩ := Arr.addAt_spec a x i m hinv hlive
+  obtain ⟨sp, sl, sf⟩ := Arr.addAt_spec a x i m hinv
   rcases sp with ⟨_, ⟨ok, _⟩ | ⟨_, hsame⟩⟩ | ⟨_, heq⟩
   · exact absurd ok h
   · exact ⟨hsame, sl, sf⟩
   · rw [heq]; exact ⟨rfl, rfl, rfl⟩
 
 /-- `cc_array_trim_capacity` -/
-theorem trim_atomic (a : Arr) (m : Mem) (hinv : a.Inv) (hlive : 0 < m.live) (h : (a.trimCapacity m).1 ≠ .ok) :
+theorem trim_atomic (a : Arr) (m : Mem) (hinv : a.Inv) (h : (a.trimCapacity m).1 ≠ .ok) :
     (a.trimCapacity m).1 = .errAlloc ∧ (a.trimCapacity m).2.1 = a ∧
     (a.trimCapacity m).2.2.live = m.live ∧ (a.trimCapacity m).2.2.fault = m.fault := by
-  obtain ⟨sp, sl, sf⟩ := Arr.trimCapacity_spec a m hinv hlive
+  obtain ⟨sp, sl, sf⟩ := Arr.trimCapacity_spec a m hinv
   rcases sp with ⟨ok, _⟩ | ⟨e, _, hsame⟩
   · exact absurd ok h
   · exact ⟨e, hsame, sl, sf⟩
 
 /-- `cc_array_iter_add`: array *and cursor* unchanged (A5) -/
 theorem iterAdd_atomic (a : Arr) (it : ArrIter) (c : Spec.Seq.Cursor) (x : Nat) (m : Mem) (hinv : a.Inv)
-    (hlive : 0 < m.live) (hs : Arr.Sim a it c) (h : (a.iterAdd it x m).1 ≠ .ok) :
+    (hs : Arr.Sim a it c) (h : (a.iterAdd it x m).1 ≠ .ok) :
     (a.iterAdd it x m).2.1 = a ∧ (a.iterAdd it x m).2.2.1 = it ∧
     (a.iterAdd it x m).2.2.2.live = m.live ∧ (a.iterAdd it x m).2.2.2.fault = m.fault := by
-  obtain ⟨sp, sl, sf⟩ := Arr.iterAdd_sim a it c x m hinv hlive hs
+  obtain ⟨sp, sl, sf⟩ := Arr.iterAdd_sim a it c x m hinv hs
   rcases sp with ⟨ok, _⟩ | ⟨_, h1, h2⟩
   · exact absurd ok h
   · exact ⟨h1, h2, sl, sf⟩
@@ -65,13 +65,13 @@ theorem iterAdd_atomic (a : Arr) (it : ArrIter) (c : Spec.Seq.Cursor) (x : Nat) 
 /-- `cc_array_zip_iter_add`: both contents, both sizes and the cursor unchanged (A8); the first array
 may have been re-allocated before the second one was refused, which is not observable -/
 theorem zipAdd_atomic (a1 a2 : Arr) (it : ArrIter) (z : Spec.Seq.ZipCursor) (x y : Nat) (m : Mem)
-    (h1 : a1.Inv) (h2 : a2.Inv) (hlive : 0 < m.live) (hs : Arr.ZSim a1 a2 it z)
+    (h1 : a1.Inv) (h2 : a2.Inv) (hs : Arr.ZSim a1 a2 it z)
     (h : (Arr.zipAdd a1 a2 it x y m).1 ≠ .ok) :
     (Arr.zipAdd a1 a2 it x y m).1 = .errAlloc ∧
     (Arr.zipAdd a1 a2 it x y m).2.1.abs = a1.abs ∧ (Arr.zipAdd a1 a2 it x y m).2.1.size = a1.size ∧
     (Arr.zipAdd a1 a2 it x y m).2.2.1 = a2 ∧ (Arr.zipAdd a1 a2 it x y m).2.2.2.1 = it ∧
     (Arr.zipAdd a1 a2 it x y m).2.2.2.2.live = m.live ∧ (Arr.zipAdd a1 a2 it x y m).2.2.2.2.fault = m.fault := by
-  obtain ⟨sp, sl, sf⟩ := Arr.zipAdd_sim a1 a2 it z x y m h1 h2 hlive hs
+  obtain ⟨sp, sl, sf⟩ := Arr.zipAdd_sim a1 a2 it z x y m h1 h2 hs
   rcases sp with ⟨ok, _⟩ | ⟨e, b1, b2, _, _, _, _, b3, b4, _⟩
   · exact absurd ok h
   · exact ⟨e, b1, b2, b3, b4, sl, sf⟩
@@ -135,10 +135,10 @@ theorem stack_filter_atomic (p : Nat → Bool) (s : Stack) (dgrow : Nat → Nat)
 
 /-- **the container stays usable**: a blocked call of a history leaves the state *equal*, so the
 rest of the history runs from the very state it would have run from without that call -/
-theorem blocked_step_is_identity (cfg : Cfg) (a : Arr) (op : Op) (m : Mem) (hinv : a.Inv) (hlive : 0 < m.live)
+theorem blocked_step_is_identity (cfg : Cfg) (a : Arr) (op : Op) (m : Mem) (hinv : a.Inv)
     (hsort : ∀ xs, (cfg.sortFn xs).length = xs.length) (hb : (a.step cfg op m).1.blocked ≠ none) :
     (a.step cfg op m).2.1 = a ∧ (a.step cfg op m).2.2.live = m.live ∧ (a.step cfg op m).2.2.fault = m.fault := by
-  obtain ⟨_, _, _, _, s5, s6, s7⟩ := Arr.step_spec cfg a op m hinv hlive hsort
+  obtain ⟨_, _, _, _, s5, s6, s7⟩ := Arr.step_spec cfg a op m hinv hsort
   refine ⟨?_, s5, s6⟩
   unfold Out.blocked at hb
   split at hb
@@ -166,11 +166,11 @@ theorem refused_iff (cfg : Cfg) (a : Arr) (op : Op) (m : Mem) (hinv : a.Inv) :
 
 /-- over a history: the number of refusals that fired equals the number of calls that reported
 `CC_ERR_ALLOC` -/
-theorem history_refused_count (cfg : Cfg) (ops : List Op) (a : Arr) (m : Mem) (hinv : a.Inv) (hlive : 0 < m.live)
+theorem history_refused_count (cfg : Cfg) (ops : List Op) (a : Arr) (m : Mem) (hinv : a.Inv)
     (hsort : ∀ xs, (cfg.sortFn xs).length = xs.length) :
     (a.run cfg ops m).2.2.nrefused =
       m.nrefused + ((a.run cfg ops m).1.filter (fun o => decide (o.st = some .errAlloc))).length :=
-  (Arr.run_led cfg ops a m hinv hlive hsort).2
+  (Arr.run_led cfg ops a m hinv hsort).2
 
 /-- constructor and builders: `CC_ERR_ALLOC` iff a refusal fired (then exactly one) -/
 theorem lifecycle_refused_iff (a : Arr) (cap b e : Nat) (grow : Nat → Nat) (exGe : Nat → Bool) (cp : Nat → Nat)
@@ -193,7 +193,7 @@ theorem lifecycle_refused_iff (a : Arr) (cap b e : Nat) (grow : Nat → Nat) (ex
 /-- iterator insertion; and the zip insertion on two arrays that are not at the capacity limit (at
 the limit `cc_array_zip_iter_add` also answers `CC_ERR_ALLOC`, without any refusal) -/
 theorem iter_add_refused_iff (a a2 : Arr) (it : ArrIter) (x y : Nat) (m : Mem) (h1 : a.Inv) (h2 : a2.Inv)
-    (hlive : 0 < m.live) (hl1 : ¬ a.AtLimit) (hl2 : ¬ a2.AtLimit) :
+    (hl1 : ¬ a.AtLimit) (hl2 : ¬ a2.AtLimit) :
     ((a.iterAdd it x m).1 = .errAlloc ↔ (a.iterAdd it x m).2.2.2.nrefused = m.nrefused + 1) ∧
     ((Arr.zipAdd a a2 it x y m).1 = .errAlloc ↔ (Arr.zipAdd a a2 it x y m).2.2.2.2.nrefused = m.nrefused + 1) := by
   constructor
@@ -202,8 +202,8 @@ theorem iter_add_refused_iff (a a2 : Arr) (it : ArrIter) (x y : Nat) (m : Mem) (
     · simp only [h, decide_true] at l; exact ⟨fun _ => l.2, fun _ => h⟩
     · simp only [h, decide_false] at l
       exact ⟨fun hh => absurd hh h, fun hh => by have := l.2; simp at this; omega⟩
-  · obtain ⟨_, z2, z3, _⟩ := Arr.zipAdd_led a a2 it x y m h1 h2 hlive
-    exact ⟨fun h => z3 h hl1 hl2, fun h => z2 (by omega)⟩
+  · obtain ⟨_, z2, z3, _⟩ := Arr.zipAdd_led a a2 it x y m h1 h2
+    exact ⟨fun h => z3 h, fun h => z2 (by omega)⟩
 
 /-! ## `continue`: after a refused call the history goes on as if the call had not been made -/
 
@@ -212,18 +212,18 @@ the blocked report, and then exactly what `ops₂` yields from the state `ops₁
 `m'` that holds the schedule remaining after the failed call ("once memory is available again");
 the final states coincide as well -/
 theorem continue_after_refusal (cfg : Cfg) (ops1 ops2 : List Op) (op : Op) (a : Arr) (m m' : Mem) (hinv : a.Inv)
-    (hlive : 0 < m.live) (hlive' : 0 < m'.live) (hsort : ∀ xs, (cfg.sortFn xs).length = xs.length)
+    (hsort : ∀ xs, (cfg.sortFn xs).length = xs.length)
     (hb : ((a.run cfg ops1 m).2.1.step cfg op (a.run cfg ops1 m).2.2).1.blocked ≠ none)
     (hm' : m'.sched = ((a.run cfg ops1 m).2.1.step cfg op (a.run cfg ops1 m).2.2).2.2.sched) :
     (a.run cfg (ops1 ++ op :: ops2) m).1 =
       (a.run cfg ops1 m).1 ++ ((a.run cfg ops1 m).2.1.step cfg op (a.run cfg ops1 m).2.2).1 ::
         ((a.run cfg ops1 m).2.1.run cfg ops2 m').1 ∧
     (a.run cfg (ops1 ++ op :: ops2) m).2.1 = ((a.run cfg ops1 m).2.1.run cfg ops2 m').2.1 := by
-  obtain ⟨_, _, i3, _, i5, _⟩ := C01.history_refines cfg ops1 a m hinv hlive hsort
+  obtain ⟨_, _, i3, _, i5, _⟩ := C01.history_refines cfg ops1 a m hinv hsort
   obtain ⟨ap1, ap2⟩ := Arr.run_append cfg ops1 (op :: ops2) a m
   obtain ⟨b1, b2, _⟩ := blocked_step_is_identity cfg (a.run cfg ops1 m).2.1 op (a.run cfg ops1 m).2.2 i3 (by omega) hsort hb
   have hind := Arr.run_indep cfg ops2 (a.run cfg ops1 m).2.1
-    ((a.run cfg ops1 m).2.1.step cfg op (a.run cfg ops1 m).2.2).2.2 m' i3 (by omega) hlive' hsort hm'.symm
+    ((a.run cfg ops1 m).2.1.step cfg op (a.run cfg ops1 m).2.2).2.2 m' i3 (by omega)' hsort hm'.symm
   rw [ap1, ap2]
   simp only [Arr.run]
   rw [b1]
